@@ -5,7 +5,7 @@
    dumped from the real objects) are in Proofs/LRGrowth.v. *)
 From Coq Require Import List ZArith NArith Bool Arith.
 From PP Require Import Model.Str Model.Results Model.Prog Model.Core Model.Entry Model.LR.
-From PP Require Import Proofs.LRGrowth.
+From PP Require Import Proofs.LRGrowth Proofs.LRTie.
 Import ListNotations.
 
 (* ============================ 1. the growth loop needs no loop fuel ============================ *)
@@ -216,3 +216,10 @@ Theorem C04_capacity_independent_partial : forall G s (ans : expr -> nat -> outc
   option_map fst (lr_forward (parse_lr G (S (S (S f)))) aE
                     (Nary ab [] NMatchFirst [Nary aa [] NAnd (Fwd aE [] (Some id) :: tail); base]) s loc d m2).
 Proof. exact direct_capacity_independent. Qed.
+
+(* ============================ 6. the tie to the source ============================ *)
+(* Model/LR.v transcribes the text of pyparsing/util.py (LRUMemo, UnboundedMemo), of the bounded-recursion block of
+   Forward.parseImpl and of reset_cache that Proofs/LRTie.v quotes (`lr_source_text`); Gen/GenMemo.v is regenerated from /repo
+   on every run, so an edit of that code breaks this obligation *)
+Theorem C04_source_pinned : lr_source_text.
+Proof. exact lr_source_pinned. Qed.
